@@ -685,7 +685,16 @@ def setting_node(v):
     return "(NStr %s)" % cstr(v)
 
 
+def effective_settings(s):
+    """what the constructor leaves on the object: UltraNest resets nsteps to None when no step sampler is configured"""
+    st = dict(s["settings"])
+    if s["cls"] == "UltraNest" and st.get("stepsampler_cls") is None:
+        st["nsteps"] = None
+    return st
+
+
 def search_term(s):
+    s = dict(s, settings=effective_settings(s))
     fields = SEARCH_FIELDS[s["cls"]]
     return "(NSearch %s %s %s)" % (
         cstr(s["cls"]), clist([cstr(f) for f, _ in fields]),
@@ -1010,6 +1019,8 @@ def differ_pairs(rng, S, gen):
     # -- search and tag -------------------------------------------------------------------------
     s = S["search"]
     for f, kind in SEARCH_FIELDS[s["cls"]]:
+        if s["cls"] == "UltraNest" and f == "nsteps" and s["settings"].get("stepsampler_cls") is None:
+            continue                      # not in effect without a step sampler
         b = _copy.deepcopy(S)
         old = s["settings"][f]
         for _ in range(20):
@@ -1046,10 +1057,11 @@ def special_pairs(rng, gen):
          "model": {"t": "coll", "form": "dict", "items": [["group", {"t": "coll", "form": "dict", "items": [["m1", m1], ["m2", m2]]}]]}}
     out.append({"kind": "pair", "how": "regroup", "expect": "differ", "a": a, "b": b, "labels": ["regroup"]})
     # operands held in variables called left / right (names that CompoundPrior rewrites to left_ / right_)
-    gen.pool = []
+    gen.pool = [gen.prior_spec(), gen.prior_spec(), gen.prior_spec()]      # three distinct priors
     lr = {"t": "model", "cls": "A2", "extras": [],
-          "attrs": [["a", {"t": "binop", "op": rng.choice(["+", "*", "/"]), "l": gen.prior(), "r": gen.prior(), "lv": "left", "rv": "right"}],
-                    ["b", {"t": "unop", "op": "neg", "a": gen.prior(), "av": "prior"}]]}
+          "attrs": [["a", {"t": "binop", "op": rng.choice(["+", "*", "/"]), "l": {"t": "prior", "ref": 0}, "r": {"t": "prior", "ref": 1},
+                           "lv": "left", "rv": "right"}],
+                    ["b", {"t": "unop", "op": "neg", "a": {"t": "prior", "ref": 2}, "av": "prior"}]]}
     out.append({"kind": "fit", "spec": {"search": gen.search(), "pool": gen.pool, "tag": "lr", "model": lr}})
     gen.pool = []
     base = {"t": "model", "cls": "A1", "attrs": [["u", gen.prior()]], "extras": [["note", {"t": "str", "v": "p.q"}]]}
@@ -1133,7 +1145,7 @@ def value_has(v, tag):
 def gen_cases(ctx):
     rng = ctx.rng
     quick = ctx.tier != "thorough"
-    nbase = 56 if quick else 420
+    nbase = 56 if quick else 800
     cases = []
     fits = 0
     for k in range(nbase):
@@ -1148,7 +1160,7 @@ def gen_cases(ctx):
         # a sample of the perturbed specifications also goes through the full correspondence
         for c in rng.sample(dp, min(len(dp), 2 if quick else 3)):
             cases.append({"kind": "fit", "spec": c["b"]})
-        if fit_eligible(S) and fits < (6 if quick else 40):
+        if fit_eligible(S) and fits < (6 if quick else 60):
             fits += 1
             a = _copy.deepcopy(S)
             if a["search"]["cls"] == "DynestyStatic":      # settings dynesty accepts, small enough to finish
@@ -1160,14 +1172,14 @@ def gen_cases(ctx):
             cases.append({"kind": "pair", "how": "fit", "expect": "same", "a": a, "b": b, "labels": reload_labels(S, "fit")})
     for _ in range(3 if quick else 20):
         cases += special_pairs(rng, Gen(rng, clean=True))
-    for _ in range(120 if quick else 1200):
+    for _ in range(120 if quick else 2500):
         cases.append({"kind": "walk", "value": gen_value(rng)})
     specials = [0.0, -0.0, 5e-9, -5e-9, 1.5e-8, 2.5e-8, 3.5e-8, 0.1 + 0.2, 1e-8, 0.30000000000000004, 1e10 + 0.5, 2.0 ** 53 * 1e-8,
                 4.6e10, 9.3e10, 1e11, 1e15, 1e22, 1e300, -1e300, 1.7976931348623157e308, 5e-324, 1e-300,
                 float("inf"), float("-inf"), float("nan"), 123456789.123456789, -0.999999995, 0.999999995]
     for v in specials:
         cases.append({"kind": "round", "v": hx(v)})
-    for _ in range(150 if quick else 3000):
+    for _ in range(150 if quick else 6000):
         r = rng.random()
         if r < 0.4:
             v = (rng.randint(-10 ** 9, 10 ** 9) + 0.5) * 1e-8          # near ties
